@@ -105,7 +105,7 @@ def compare_replicas(builds, xs, root, uidx, n_sched, res, label, source, stream
                 engine._add(res, f, ctx, "replica:" + name)
             ops = {i: oracles.parse_op(l) for i, l in enumerate([l for l in traces[bi][1][r] if l.startswith("OP ")])}
             lf, pr = oracles.law_check(run.session(0), ops, comp["meta"]["flags"])
-            for f in lf + oracles.end_law_check(run.session(0)):
+            for f in lf + oracles.end_law_check(run.session(0), {a[0] for a in run.aborts}):
                 engine._add(res, f, ctx, "replica:" + name)
             if bi == 0 or ref_crash is not None:
                 continue
